@@ -546,6 +546,10 @@ class XDataset:
                 if ck not in self._vars:
                     self._vars[ck] = cv.variable
                     self._coord_names.add(ck)
+                elif ck in var.dims and self._vars[ck] is not cv.variable and self._vars[ck].arr is not cv.variable.arr:
+                    # XR-ASSIGN-ALIGN: a DataArray brings its own index along; xarray aligns it with the dataset's index by label
+                    # (rows without a partner become missing) -- not modelled: the scenario is undecided rather than wrong
+                    raise Unsupported(f'assignment of a DataArray whose index {ck!r} is not the dataset\'s own (alignment by label)')
         elif isinstance(v, Variable):
             var = v
         elif isinstance(v, tuple):
@@ -607,6 +611,13 @@ class XDataset:
 
     def keys(self):
         return list(self._vars.keys())
+
+    def get(self, k, default=None):
+        try:
+            ok = (not is_sym(k)) and k in self._vars
+        except TypeError:
+            ok = False
+        return self._da(k) if ok else default
 
     def items(self):
         return [(k, self._da(k)) for k in self._vars if k not in self._coord_names]
